@@ -271,7 +271,14 @@ func genC04(g *G) {
 			continue
 		}
 		b := []byte(s)
-		switch g.r.intn(12) {
+		kind := g.r.intn(12)
+		if kind == 1 || kind == 2 || kind == 3 || kind == 9 {
+			// the variant is presented IMMEDIATELY AFTER a successful decode of the string it was made from (seeded change
+			// C04-h: a one-entry memo of the last successful decode, looked up by a case-folding comparison): Decode must be a
+			// function of its argument alone
+			emit(s)
+		}
+		switch kind {
 		case 0: // untouched
 		case 1: // upper / lower the whole string
 			if g.r.bool() {
